@@ -90,15 +90,18 @@ def distinct(rnd, k, lo=-6, hi=6):
     return out
 
 
-def gen_case(rnd, cname, prop, shape=None):
+def gen_case(rnd, cname, prop, shape=None, mask_p=None):
     hostile = prop in ("C04", "C13")
     fuzzy = cname in cc.FUZZY_IN
+    forced_mask = mask_p
     if shape is None:
         shape = rnd.choice([(1,), (2,), (3,), (4,), (5,), (6,), (7,)])
         if prop in ("C05", "C03") and rnd.random() < 0.6:
             shape = rnd.choice([(2, 3), (1, 4), (3, 1), (2, 2), (2, 1, 3), (1, 1, 2), (2, 2, 2), (3, 2)])
     mask_p = rnd.choice([0.0, 0.15, 0.3, 0.5]) if prop != "C03" else rnd.choice([0.2, 0.35, 0.5])
-    if rnd.random() < 0.04:
+    if forced_mask is not None:
+        mask_p = forced_mask
+    elif rnd.random() < 0.04:
         mask_p = 1.0       # an input with no valid cell at all (e.g. the result of a division by an all-zero layer)
     n = 1
     if cname in cc.NARY:
@@ -335,6 +338,16 @@ def main():
                         arrays.append(numpy.ma.array([rnd.choice(HIDDEN_F) if v is None else v for v in col], mask=[v is None for v in col]))
                     for p in plist:
                         jobs.append((cname, arrays, dict(p)))
+    if prop == "C05":
+        # every command once on a rank-3 and once on a rank-2 grid with no axis of length 1 and missing cells in the inputs
+        for cname in pool:
+            for shp in ((2, 3, 2), (3, 2)):
+                for _ in range(5):
+                    g = gen_case(rnd, cname, prop, shape=shp, mask_p=0.3)
+                    if g is not None:
+                        jobs.append((cname, g[0], g[1]))
+                        break
+        n += len(jobs)
     while len(jobs) < n:
         cname = rnd.choice(pool)
         g = gen_case(rnd, cname, prop)
